@@ -1155,10 +1155,16 @@ impl DnsRegistry {
 
     /// Returns the renamed name if a name change exists, otherwise returns the original name.
     pub(crate) fn resolve_name<'a>(&'a self, name: &'a str) -> &'a str {
-        match self.name_changes.get(name) {
-            Some(new_name) => new_name,
-            None => name,
+        if let Some(new_name) = self.name_changes.get(name) {
+            return new_name;
         }
+
+        // The changes are recorded under the names as registered, while callers
+        // may hold a name in lower case (the key of a service).
+        self.name_changes
+            .iter()
+            .find(|(original, _)| original.eq_ignore_ascii_case(name))
+            .map_or(name, |(_, new_name)| new_name.as_str())
     }
 
     pub(crate) fn is_probing_done<T>(
